@@ -46,13 +46,14 @@ constexpr int kTagCtor = 2, kTagForward = 3, kTagGuard = 4;
 
 enum Probe : int {
   pNodeCreated = 0, pNodeRetired, pWorkerAcrossForwards, pIdReuse, pGuardSeenByForward, pQuiescentForward, pListChecked, pGuardStraddledForward,
-  pRestart, pPinnedAcrossBoundary, pBurst, pUnobservedForward, pGuardReleasedByAssign, pManagerRecreated, pProbes
+  pRestart, pPinnedAcrossBoundary, pBurst, pUnobservedForward, pGuardReleasedByAssign, pManagerRecreated, pForwardByGuardHolder, pProbes
 };
 const char *const kProbeNames[] = {"forward_created_list_node", "forward_retired_list_node", "guard_alive_across_two_or_more_forwards",
                                    "slot_reused_by_new_thread", "live_guard_checked_after_forward", "quiescent_forward_checked",
                                    "protected_list_checked", "guard_creation_overlapped_forward", "worker_exit_and_restart",
                                    "guard_pinned_across_node_boundary", "coordinator_forward_burst", "forward_followed_by_forward_without_observation",
-                                   "guard_released_by_assigning_empty_guard", "manager_destroyed_and_recreated_in_place", nullptr};
+                                   "guard_released_by_assigning_empty_guard", "manager_destroyed_and_recreated_in_place",
+                                   "forward_called_by_a_thread_that_holds_a_guard", nullptr};
 
 std::string g_prop;
 bool tagged(const char *tags) { return g_prop.empty() || strstr(tags, g_prop.c_str()) != nullptr; }
@@ -476,7 +477,7 @@ void final_quiescent_check()
 }
 
 // ---- sequential histories (C20) --------------------------------------------------------------------
-enum Cmd : int { cNone = 0, cCreate, cDestroy, cExit };
+enum Cmd : int { cNone = 0, cCreate, cDestroy, cExit, cForward };
 struct SeqW {
   int slot;
   size_t probe_hash;
@@ -500,6 +501,12 @@ void seq_worker_fn(void *p)
       dsim::op_begin("destroy guard", 0);
       g.reset();
       dsim::op_end();
+    } else if (cmd == cForward) {
+      // this thread is the one that drives the epochs for a while - possibly while it holds a guard of its own
+      dsim::Observer ob(1ull << 40);
+      dsim::set_alloc_tag(kTagForward);
+      S->mgr->ForwardGlobalEpoch();
+      dsim::set_alloc_tag(0);
     } else if (cmd == cExit) {
       dsim::signal(0);
       dsim::op_begin("thread-exit cleanup", 0);
@@ -568,7 +575,11 @@ void run_sequential(const Program &p)
       case kSeqForward: {
         const size_t nodes0 = live_nodes();
         for (int64_t i = 0; i < op.a; ++i) {
-          {
+          if (op.obj >= 1 && op.obj <= W) {
+            // forwards of this operation are called by a worker thread (never two threads at a time: still one coordinator)
+            if (S->slot_has_guard[op.obj]) dsim::probe(pForwardByGuardHolder);
+            seq_command(op.obj, cForward);
+          } else {
             dsim::Observer ob(1ull << 40);  // nothing runs concurrently with ForwardGlobalEpoch in these histories
             dsim::set_alloc_tag(kTagForward);
             S->mgr->ForwardGlobalEpoch();
@@ -811,6 +822,7 @@ void generate(Program &prog, dsim::Config &cfg, dsim::Rng &pr, dsim::Rng &cr, in
           case 4: o.a = 256 * (1 + static_cast<int64_t>(pr.below(4))) + static_cast<int64_t>(pr.below(3)) - 1; break;
           default: o.a = 1 + static_cast<int64_t>(pr.below(60)); break;
         }
+        if (W >= 1 && o.a <= 300 && pr.chance(1, 3)) o.obj = 1 + static_cast<int>(pr.below(static_cast<uint64_t>(W)));
       } else if (x < 65) {
         o.kind = kSeqCreate;
         o.obj = 1 + static_cast<int>(pr.below(static_cast<uint64_t>(W)));
@@ -966,7 +978,7 @@ std::string render(const Program &p)
     s += ", sequential history with " + std::to_string(p.params.size() > 1 ? p.params[1] : 0) + " workers:\n  ";
     for (auto &o : p.threads[0]) {
       switch (o.kind) {
-        case kSeqForward: s += "forward x" + std::to_string(o.a) + "; "; break;
+        case kSeqForward: s += "forward x" + std::to_string(o.a) + (o.obj ? " by W" + std::to_string(o.obj) : "") + "; "; break;
         case kSeqRecreate: s += "destroy manager, new manager at the same address; "; break;
         case kSeqCreate: s += "W" + std::to_string(o.obj) + ".create; "; break;
         case kSeqDestroy: s += "W" + std::to_string(o.obj) + ".destroy; "; break;
